@@ -93,7 +93,9 @@ fn run_case(case: &Case, ctx: &mut Ctx) {
         match case.mode {
             Mode::Default => {}
             Mode::Sqpoll => c = c.with_kernel_thread(),
-            Mode::SingleIssuer => c = c.single_issuer(),
+            // (With and without deferred task running: both are single-issuer
+            // rings and must use the synchronous message path.)
+            Mode::SingleIssuer => c = if case.wakers.first().copied().unwrap_or(0) % 2 == 0 { c.single_issuer() } else { c.single_issuer().defer_task_run() },
         }
         c.build()
     };
@@ -148,6 +150,7 @@ fn run_case(case: &Case, ctx: &mut Ctx) {
         let drop_ring = case.drop_ring && case.mode != Mode::Sqpoll;
         threads.push(Box::new(move || {
             let mut ring = ring_slot.lock().unwrap().take().unwrap();
+            sim::bind_submitter_here(ring_fd);
             for k in 0..=zero {
                 if drop_ring && k == zero {
                     // Drop the Ring while wake() calls may be in progress.
@@ -291,6 +294,7 @@ fn run_case(case: &Case, ctx: &mut Ctx) {
     let outcome = sched::run(case.tape.clone(), 30_000, false, threads);
     sim::set_sqpoll_wake_token(None);
     let ring = ring_slot.lock().unwrap().take().map(|r| r.0);
+    sim::bind_submitter_here(ring_fd);
 
     if outcome.over_budget {
         if case.drop_ring && case.mode != Mode::Sqpoll && poller_done.load(Ordering::SeqCst) && wakers_done.load(Ordering::SeqCst) < nwakers {
